@@ -365,16 +365,15 @@ theorem getLast?_mem_tail_or {α} (V : List α) (z : α) (h : V.getLast? = some 
       exact List.mem_of_getLast? h
 
 /-- The NSEC records produced by the walk over a sorted node list are the chain over the secure names. -/
-theorem walk_chain (c : NsecConsts) (v : LastVariant) (origin : Name) (nodes : List ZNode) (ws : Bool) (L : List ZNode)
+theorem walk_chain (c : NsecConsts) (origin : Name) (nodes : List ZNode) (ws : Bool) (L : List ZNode)
     (hlook : ∀ z ∈ L, lookupNode nodes z.name = some z)
     (htypes : ∀ z ∈ L, z.types ≠ [])
     (htail : ∀ z ∈ L.tail, z.name ≠ [])
     (ho : origin ≠ [])
     (H1 : L.Pairwise (fun a b => subOf a b = false))
     (H3 : ∀ x ∈ L, ∀ y ∈ L, ∀ z ∈ L, subOf x y = true → subOf y z = true → subOf x z = true)
-    (HC : contig L = true)
-    (hv : v = .intended ∨ ∀ z, (secure c origin L).getLast? = some z → z.name ≠ []) :
-    nsecsOf (walkSorted c v origin nodes ws L) = chain c origin (secure c origin L) origin := by
+    (HC : contig L = true) :
+    nsecsOf (walkSorted c origin nodes ws L) = chain c origin (secure c origin L) origin := by
   have hvis := visit_eq_secure c origin L H1 H3 HC
   obtain ⟨hout, hlast⟩ := fold_visit c origin nodes ws L { delegation := none, lastSecure := none, out := [] }
   simp only [absDeleg, hvis] at hout hlast
@@ -384,32 +383,14 @@ theorem walk_chain (c : NsecConsts) (v : LastVariant) (origin : Name) (nodes : L
   have hgood : ∀ z ∈ secure c origin L, Good nodes z := fun z hz => ⟨hlook z (hsub z hz), htypes z (hsub z hz)⟩
   have htl : ∀ z ∈ (secure c origin L).tail, z.name ≠ [] := fun z hz => htail z (filter_tail_subset _ L z hz)
   -- the closing record is always written under the stated guard
-  have hclose : nsecsOf (walkSorted c v origin nodes ws L) =
+  have hclose : nsecsOf (walkSorted c origin nodes ws L) =
       linksE c origin nodes ws none (secure c origin L) ++ closeRec c origin nodes ws (lastName none (secure c origin L)) := by
-    have htr : ∀ l, lastName none (secure c origin L) = some l → v = .asShipped → truthy l = true := by
-      intro l hl hvs
-      rcases hv with hv | hv
-      · rw [hv] at hvs; cases hvs
-      · unfold lastName at hl
-        cases hg : (secure c origin L).getLast? with
-        | none => rw [hg] at hl; simp at hl
-        | some z =>
-          rw [hg] at hl
-          simp at hl
-          have := hv z hg
-          rw [← hl]
-          cases hz : z.name with
-          | nil => exact absurd hz this
-          | cons a as => simp [truthy]
     unfold walkSorted
     simp only
     rw [hlast]
     cases hl : lastName none (secure c origin L) with
     | none => simp only [closeRec, List.append_nil]; exact hout
-    | some l =>
-      cases v with
-      | intended => simp only [if_true, nsecsOf_append, hout, closeRec]
-      | asShipped => simp only [htr l hl rfl, if_true, nsecsOf_append, hout, closeRec]
+    | some l => simp only [nsecsOf_append, hout, closeRec]
   rw [hclose]
   cases hV : secure c origin L with
   | nil => simp [linksE, lastName, closeRec, chain]
